@@ -50,6 +50,15 @@ CLAIMED.update({
  "C16": vm("5/C16", "C01-C06 style programs plus clone/drop storms on Actor, ActorOwn, Fwd, Deferrer and moves of Ret; every item capture, message and handle must be released exactly once by the end of the case (registries), capture bytes verified on use, and a counting global allocator requires live heap allocations after the case (Stakker, references and harness bookkeeping dropped) to equal those before it, confirmed by re-execution. Memory-unsafety that kills the process is replayed in a fresh process and reported if it reproduces."),
 })
 
+CLAIMED.update({
+ "C18": dict(engine="E6 feature-matrix differential", ref="5/C18", technique="differential property-based testing: one proptest program stream executed by a persistent process per supported feature set, event-trace hashes compared, shrinking across all processes",
+   text="Each generated program (queues, actors, timers, Rets, drop handlers, shutdown) is executed by 20 vrun binaries - the 18 feature sets printed by /repo/run-feature-combinations (regenerated at check time), the default set and logger alone - and the hash and length of the full observable event trace must be identical in all of them; each process also runs the lock-step monitor. A failing program is shrunk against all processes and replayed with the first diverging trace line shown.",
+   note="Matrix builds use a reduced shape family (24 closure shapes). Programs avoid deferring after the Stakker is gone (documented to behave differently per deferrer). Feature sets outside upstream's supported list are not run. Trusted: rustc/std, proptest, the VM/monitor."),
+ "C20": dict(engine="E6 feature-matrix differential (logger sets)", ref="5/C20", technique="property-based testing (proptest actor programs) in every feature set that includes logger, with a recording logger and a reference reading of LogFilter as oracle",
+   text="Actor programs of C02-C04 shape run in the 7 logger feature sets with a recording logger under generated filters (from_str/all/|/new, changed mid-program): each creation must produce exactly one Open record iff Open is enabled, with a fresh non-zero id equal to actor.id() and the creator's id as parent; each effective termination exactly one Close record iff enabled, with the marker and message matching the StopCause delivered to the notifier; after every run all 9 levels are probed with core.log and log_check against the reference reading.",
+   note="The logger callback only records. Trusted: rustc/std, proptest, the harness's reading of the LogFilter documentation."),
+})
+
 NOT_YET = "check not built yet in this session (planned, see DESIGN.md section 5); not claimed until it exists and passes its sensitivity self-test"
 
 def main():
@@ -86,6 +95,7 @@ def main():
         },
         "engines": [
             {"name": "E1 program VM + monitor", "path": "/verif/harness/vcore/src/vm", "serves_properties": ["C01","C02","C03","C04","C05","C06","C15","C16"], "kind_free_text": "proptest byte strings -> program VM driving the real Stakker; lock-step specification-level monitor; counting allocator"},
+            {"name": "E6 feature-matrix differential", "path": "/verif/harness/vcheck/src/matrix.rs", "serves_properties": ["C18","C20"], "kind_free_text": "vrun binary per feature set (built by ./check), persistent servers, trace-hash equality; logger sets additionally checked for Open/Close records"},
             {"name": "E3 queue differential", "path": "/verif/harness/vcore/src/queues.rs", "serves_properties": ["C17"], "kind_free_text": "flat.rs vs boxed.rs side by side: enumerated boundary sweep + proptest op sequences, event-log equality"},
             {"name": "E2 timer histories", "path": "/verif/harness/vcore/src/timers.rs", "serves_properties": ["C07", "C08", "C09", "C10", "C19"], "kind_free_text": "proptest byte strings -> timer histories -> real Stakker in virtual time vs deadline model"},
         ],
